@@ -249,10 +249,23 @@ def cmp_trace(ctx, case, what, mtrace, itrace):
         if r == 'float':
             return 'float'
         if r == 'diff':
+            if inexact_content(case):
+                # the workbook holds numbers outside the float-exact domain (1e22, 0.1, 1e-7 ...): the model's exact
+                # arithmetic and IEEE arithmetic may differ by more than a rounding ((1e22 + 12) - 1e22 is 0.0)
+                return 'float'
             ctx.divergence(dict(case, leg=what, step=j), it[1], mval(m[0]),
                            'value returned by the model history = value returned by ExcelCompiler')
             return 'diff'
     return 'same'
+
+
+def inexact_content(case):
+    """a numeric constant of the workbook is outside the float-exact domain (DESIGN.md section 4)"""
+    def exact(v):
+        if isinstance(v, bool) or not isinstance(v, (int, float)):
+            return True
+        return abs(v) < 2 ** 26 and float(v * 4096).is_integer()
+    return any(not exact(row[1]) for row in case.get('workbook', ()) if len(row) > 1)
 
 
 def cmp_snap(ctx, case, what, msnap_sx, isnap):
@@ -261,6 +274,8 @@ def cmp_snap(ctx, case, what, msnap_sx, isnap):
         ctx.divergence(dict(case, leg=what), sorted(isnap), sorted(msnap), 'built set of the model = keys of cell_map')
         return 'diff'
     rels = {val_rel(msnap[i], isnap[i]) for i in isnap}
+    if 'diff' in rels and inexact_content(case):
+        return 'float'
     if 'diff' in rels:
         diff = {i: (isnap[i], msnap[i]) for i in isnap if val_rel(msnap[i], isnap[i]) == 'diff'}
         ctx.divergence(dict(case, leg=what), diff, 'see impl', 'cache snapshot of the model = cell_map values')
